@@ -76,12 +76,13 @@ Inductive lenarg :=
 
 Inductive lenres := LenOk (n : nat) | LenPanic.
 
+(* rv.Len() for the kinds that have a length, 0 for everything else *)
 Definition len_direct (a : lenarg) : lenres :=
   match a with
   | LStr b => LenOk (length b)
   | LSeq n => LenOk n
   | LMap n => LenOk n
-  | _ => LenPanic            (* reflect.Value.Len on another kind / zero Value *)
+  | _ => LenOk 0
   end.
 
 (* func Len(v interface{}) int *)
@@ -89,6 +90,6 @@ Definition len_model (a : lenarg) : lenres :=
   match a with
   | LNil => LenOk 0
   | LPtr x => len_direct x   (* rv.Kind() == reflect.Ptr -> rv.Elem() (one level) *)
-  | LNilPtr => LenPanic      (* Elem of a nil pointer is the zero Value *)
+  | LNilPtr => LenOk 0       (* Elem of a nil pointer is the zero Value: no length *)
   | x => len_direct x
   end.
